@@ -37,6 +37,7 @@ type frame struct {
 	passed  []string // run-time checks the current instruction has passed (strengthen the path condition)
 	closOrd map[ssa.Value]int
 	closChecked map[ssa.Value]bool
+	defers      []deferRec
 }
 
 type mapIter struct {
@@ -418,6 +419,7 @@ func (f *frame) run(args []T, st0 *State, pc0 string) {
 		var st *State
 		if b == fn.Blocks[0] {
 			pc, st = pc0, st0.clone()
+			f.initDefers(st)
 		} else {
 			var es []edge
 			var preds []*ssa.BasicBlock
@@ -587,7 +589,7 @@ func (f *frame) instr(ins ssa.Instruction, pc string, st *State) string {
 		f.closOrd[i] = len(f.closOrd)
 		f.vals[i] = T{g.fresh(st), "Int"}
 	case *ssa.Defer:
-		fail("%s: defer is outside the subset", f.fn.Name())
+		f.doDefer(i, st)
 	case *ssa.Go, *ssa.Send, *ssa.Select:
 		fail("%s: goroutines / channels are outside the subset", f.fn.Name())
 	case *ssa.Call:
@@ -930,6 +932,27 @@ func (f *frame) doLookup(i *ssa.Lookup, st *State, pc string) {
 		f.doIndexString(i, st, pc)
 		return
 	}
+	if cm := g.P.constMapOf(i.X); cm != nil {
+		// effectively constant global map: a finite case split over its literal entries
+		k := f.mapKey(f.val(i.Index))
+		var hasCs []string
+		vt := g.zero(mt.Elem()).S
+		for n := len(cm.entries) - 1; n >= 0; n-- {
+			e := cm.entries[n]
+			kc := f.mapKey(g.constVal(e.k.Value, e.k.Type()).T)
+			hasCs = append(hasCs, eq(k, kc))
+			vt = ite(eq(k, kc), g.constVal(e.v.Value, e.v.Type()).T.S, vt)
+		}
+		has := g.s.def(i.Name()+".has", T{or(hasCs...), "Bool"}).S
+		v := g.s.def(i.Name(), T{vt, g.sortOf(mt.Elem())})
+		g.constMapsUsed[cm.g.Name()] = true
+		if i.CommaOk {
+			f.tuples[i] = []T{v, {has, "Bool"}}
+		} else {
+			f.vals[i] = v
+		}
+		return
+	}
 	m := f.val(i.X)
 	k := f.mapKey(f.val(i.Index))
 	has := "(select " + g.readHeap(st, g.mapHasHeap(mt), m.S) + " " + k + ")"
@@ -1168,4 +1191,71 @@ func (f *frame) doTypeAssert(i *ssa.TypeAssert, st *State, pc string) {
 	g.s.assumeUnder(pc, g.typeInv(st, get, to))
 }
 
-func (f *frame) runDefers(st *State, pc string) {}
+// Deferred calls. Supported shape: `defer func() { ... }()` outside loops. Whether the defer
+// statement has been reached on the current path is a Boolean "heap" scalar (merged by ite like
+// every other state component); at RunDefers the closure bodies are executed inline, last
+// registered first, each under its flag.
+type deferRec struct {
+	flag string
+	mc   *ssa.MakeClosure
+	at   *ssa.Defer
+}
+
+func (f *frame) deferFlag(d *ssa.Defer) string {
+	n := 0
+	for _, b := range f.fn.Blocks {
+		for _, ins := range b.Instrs {
+			if x, ok := ins.(*ssa.Defer); ok {
+				if x == d {
+					return fmt.Sprintf("%sdefer.%d", f.prefix, n)
+				}
+				n++
+			}
+		}
+	}
+	return ""
+}
+
+func (f *frame) initDefers(st *State) {
+	for _, b := range f.fn.Blocks {
+		for _, ins := range b.Instrs {
+			if d, ok := ins.(*ssa.Defer); ok {
+				st.heap[f.deferFlag(d)] = f.g.newHV(f.deferFlag(d), "Bool", "false", hvStore)
+			}
+		}
+	}
+}
+
+func (f *frame) doDefer(d *ssa.Defer, st *State) {
+	mc := f.clos[d.Call.Value]
+	if mc == nil || len(d.Call.Args) != 0 || d.Call.IsInvoke() {
+		fail("%s: only `defer func() {...}()` is inside the subset", f.fn.Name())
+	}
+	for _, li := range f.loops {
+		if li.body[d.Block()] {
+			fail("%s: defer inside a loop is outside the subset", f.fn.Name())
+		}
+	}
+	name := f.deferFlag(d)
+	st.heap[name] = f.g.newHV(name, "Bool", "true", hvStore)
+	f.defers = append(f.defers, deferRec{name, mc, d})
+}
+
+func (f *frame) runDefers(st *State, pc string) {
+	g := f.g
+	for k := len(f.defers) - 1; k >= 0; k-- {
+		d := f.defers[k]
+		flag := g.hv(st, d.flag).term
+		if flag == "false" {
+			continue
+		}
+		if flag == "true" {
+			f.inlineClosureAt(d.mc, nil, st, pc, fmt.Sprintf("defer%d", k))
+			continue
+		}
+		with := st.clone()
+		f.inlineClosureAt(d.mc, nil, with, and(pc, flag), fmt.Sprintf("defer%d", k))
+		_, nst := g.mergeStates([]edge{{and(pc, flag), with}, {and(pc, not(flag)), st}})
+		*st = *nst
+	}
+}
